@@ -214,6 +214,61 @@ int_bounds!(ib_srgb_u16, u16, Srgb<u16>, 3, |v| Srgb::new(v[0], v[1], v[2]), |c|
 int_bounds!(ib_linsrgb_u32, u32, LinSrgb<u32>, 3, |v| LinSrgb::new(v[0], v[1], v[2]), |c| vec![c.red, c.green, c.blue], [min_red / max_red, min_green / max_green, min_blue / max_blue]);
 int_bounds!(ib_luma_u8, u8, SrgbLuma<u8>, 1, |v| SrgbLuma::new(v[0]), |c| vec![c.luma], [min_luma / max_luma]);
 int_bounds!(ib_luma_u16, u16, LinLuma<D65, u16>, 1, |v| LinLuma::new(v[0]), |c| vec![c.luma], [min_luma / max_luma]);
+// ---- colour types outside the XYZ conversion group (CAM16-UCS, CAM16 and its partial forms): bounds contract only
+macro_rules! extra_bounds {
+    ($fname:ident, $C:ty, |$v:ident| $make:expr, |$c:ident| $comps:expr, [$($b:expr),*]) => {
+        fn $fname(name: &str, $v: &[T]) -> Value {
+            let a: $C = $make;
+            let get = |$c: &$C| -> Vec<T> { $comps };
+            let bs: Vec<(Option<T>, Option<T>)> = vec![$($b),*];
+            let lo: Vec<Value> = bs.iter().map(|(l, _)| match l { Some(x) => x.ex(), None => json!([]) }).collect();
+            let hi: Vec<Value> = bs.iter().map(|(_, h)| match h { Some(x) => x.ex(), None => json!([]) }).collect();
+            let mut e = json!({"ev": "bounds", "t": TNAME, "node": name, "alpha": 0, "in": ex_arr(&get(&a)), "lo": lo, "hi": hi});
+            let r = catch(|| {
+                let c = a.clamp();
+                let c2 = c.clamp();
+                let mut ca = a;
+                ca.clamp_assign();
+                let mut sl = [a, a, a];
+                sl[..].clamp_assign();
+                json!({"clamp": ex_arr(&get(&c)), "clamp2": ex_arr(&get(&c2)), "clamp_assign": ex_arr(&get(&ca)), "slice": ex_arr(&get(&sl[1])),
+                       "within_in": a.is_within_bounds() as u8, "within_out": c.is_within_bounds() as u8, "within_out_assign": ca.is_within_bounds() as u8})
+            });
+            match r {
+                Ok(o) => { for (k, val) in o.as_object().unwrap() { e[k] = val.clone(); } e["panic"] = json!(0); }
+                Err(_) => { e["panic"] = json!(1); }
+            }
+            e
+        }
+    };
+}
+type XJab = palette::cam16::Cam16UcsJab<T>;
+type XJmh = palette::cam16::Cam16UcsJmh<T>;
+type XJch = palette::cam16::Cam16Jch<T>;
+type XQsh = palette::cam16::Cam16Qsh<T>;
+type XCam = palette::cam16::Cam16<T>;
+const Z: Option<T> = Some(0.0);
+extra_bounds!(xb_jab, XJab, |v| XJab::new(v[0], v[1], v[2]), |c| vec![c.lightness, c.a, c.b],
+              [mm!(XJab, min_lightness, max_lightness), FREE, FREE]);
+extra_bounds!(xb_jmh, XJmh, |v| XJmh::new(v[0], v[1], v[2]), |c| vec![c.lightness, c.colorfulness, c.hue.into_inner()],
+              [mm!(XJmh, min_lightness, max_lightness), mn!(XJmh, min_colorfulness), FREE]);
+// CAM16 attributes have no accessors: "0 and up" is what the documentation of the fields says
+extra_bounds!(xb_jch, XJch, |v| XJch::new(v[0], v[1], v[2]), |c| vec![c.lightness, c.chroma, c.hue.into_inner()], [(Z, None), (Z, None), FREE]);
+extra_bounds!(xb_qsh, XQsh, |v| XQsh::new(v[0], v[1], v[2]), |c| vec![c.brightness, c.saturation, c.hue.into_inner()], [(Z, None), (Z, None), FREE]);
+extra_bounds!(xb_cam, XCam, |v| XCam { lightness: v[0], chroma: v[1], hue: v[2].into(), brightness: v[3], colorfulness: v[4], saturation: v[5] },
+              |c| vec![c.lightness, c.chroma, c.hue.into_inner(), c.brightness, c.colorfulness, c.saturation],
+              [(Z, None), (Z, None), FREE, (Z, None), (Z, None), (Z, None)]);
+fn extra_bounds_op(name: &str, input: &[T]) -> Value {
+    match name {
+        "cam16ucsjab" => xb_jab(name, input),
+        "cam16ucsjmh" => xb_jmh(name, input),
+        "cam16jch" => xb_jch(name, input),
+        "cam16qsh" => xb_qsh(name, input),
+        "cam16" => xb_cam(name, input),
+        _ => { eprintln!("unknown extra node {}", name); std::process::exit(3) }
+    }
+}
+
 pub const INT_NODES: [&str; 5] = ["srgb_u8", "srgb_u16", "linsrgb_u32", "srgbluma_u8", "linluma_u16"];
 fn int_bounds_op(name: &str, input: &[u64]) -> Value {
     match name {
@@ -490,6 +545,12 @@ pub fn convmain() {
                     Ok(o) => { for (k, val) in o.as_object().unwrap() { e[k] = val.clone(); } e["panic"] = json!(0); }
                     Err(_) => { e["panic"] = json!(1); }
                 }
+                rec.ev(e);
+            }
+            "xbounds" => {
+                let input: Vec<T> = c["in"].as_array().unwrap().iter().map(|x| hexf(x.as_str().unwrap())).collect();
+                let mut e = extra_bounds_op(c["node"].as_str().unwrap(), &input);
+                e["id"] = c["id"].clone();
                 rec.ev(e);
             }
             "ibounds" => {
